@@ -1,11 +1,1054 @@
+// Layer B — admission to and synthesis from the negative caches
+// (middleware/cache: RFC 8020 subtree cuts, RFC 8198 aggressive proofs).
+//
+// A real cache.Cache is driven through its middleware entry (Cache.ServeDNS →
+// ResponseWriter.WriteMsg) with a stub "resolver" behind it that answers from
+// the reference model and reproduces the semantic step of Resolver.authority
+// (real evaluators decide AD / provenance / aggressive eligibility), and
+// through the exported Store API. Clock advance is virtual (hook
+// VerifC02Advance). Every synthesised answer, every admission decision and the
+// CD / ECS gates are judged against the model.
 package main
 
-import "github.com/semihalev/sdns/zzverif/vlib"
+import (
+	"context"
+	"fmt"
+	"math/rand/v2"
+	"net"
+	"sort"
+	"time"
 
+	"github.com/miekg/dns"
+	"github.com/semihalev/sdns/config"
+	"github.com/semihalev/sdns/internal/dnsutil"
+	"github.com/semihalev/sdns/internal/mock"
+	"github.com/semihalev/sdns/middleware"
+	"github.com/semihalev/sdns/middleware/cache"
+	"github.com/semihalev/sdns/middleware/resolver/dnssec"
+	"github.com/semihalev/sdns/zzverif/vlib"
+)
+
+// CaseB identifies one Layer B case; it is regenerated from (Seed, Index).
 type CaseB struct {
-	Layer string `json:"layer"`
+	Layer  string   `json:"layer"`
+	Seed   uint64   `json:"seed"`
+	Index  int      `json:"index"`
+	Tier   string   `json:"tier"`
+	OpNo   int      `json:"op_no"`
+	Op     string   `json:"op"`
+	Detail string   `json:"detail"`
+	Trace  []string `json:"trace,omitempty"`
 }
 
-func layerB(r *vlib.Run, n int)     {}
-func replayB(r *vlib.Run, c CaseB) {}
-func requireB(r *vlib.Run)          {}
+const expireCfg = 600 // config.Expire (seconds): NegativeTTL → cut / proof max TTL
+
+type zoneB struct {
+	z    *Zone
+	mode string // "nsec" | "nsec3"
+	nv   *nsecView
+	n3   []*dns.NSEC3
+}
+
+type caseB struct {
+	r     *vlib.Run
+	cb    CaseB
+	rng   *rand.Rand
+	zones []*zoneB
+	c     *cache.Cache
+	store *cache.Store
+	vnow  time.Duration // virtual time advanced so far
+	trace []string
+	opNo  int
+	op    string
+
+	// model of what may legitimately be in the caches: virtual expiry per record
+	expProof map[string]time.Duration // zoneK|type|ownerK → latest virtual expiry
+	expCut   map[string]time.Duration // deniedK|zoneK
+	// stub control for the next pipeline query
+	stubMode  string
+	stubCalls int
+	stubNote  string
+	cutIn     time.Duration // deadline the stub folds into ResponseMeta (0 = none)
+	lastAdmit *admitInfo
+
+	uni []uniB
+	t   *tally
+}
+
+type uniB struct {
+	n     Name
+	types []uint16
+}
+
+type admitInfo struct {
+	marked     bool
+	aggressive bool
+	optout     bool // the proof rests on an Opt-Out span (model)
+	rcode      int
+	zone       *zoneB
+	subject    Name
+	resp       *dns.Msg
+	cutUntil   time.Time
+}
+
+func caseRng(seed uint64, idx int) *rand.Rand {
+	return rand.New(rand.NewPCG(seed, 0xC02B000000000000+uint64(idx)))
+}
+
+func (cs *caseB) tracef(format string, a ...any) {
+	if len(cs.trace) < 400 {
+		cs.trace = append(cs.trace, fmt.Sprintf("#%d ", cs.opNo)+fmt.Sprintf(format, a...))
+	}
+}
+
+func (cs *caseB) violation(sig, what string) {
+	cs.t.add("contradicted/"+sig, 1)
+	if cs.t.viol[sig] != nil {
+		return
+	}
+	c := cs.cb
+	c.OpNo, c.Op, c.Detail = cs.opNo, cs.op, what
+	tr := cs.trace
+	if len(tr) > 60 {
+		tr = tr[len(tr)-60:]
+	}
+	c.Trace = append([]string(nil), tr...)
+	cs.t.viol[sig] = &found{key: fmt.Sprintf("B%06d/%05d", cs.cb.Index, cs.opNo), what: what}
+	cs.t.violB = append(cs.t.violB, violB{sig: sig, what: what, c: c})
+}
+
+// ---------------------------------------------------------------- world view
+
+func (cs *caseB) zoneFor(n Name, qtype uint16) *zoneB {
+	var best *zoneB
+	for _, zb := range cs.zones {
+		if !n.IsSubOf(zb.z.Apex) {
+			continue
+		}
+		if n.Equal(zb.z.Apex) && qtype == dns.TypeDS {
+			continue // DS lives in the parent
+		}
+		if best == nil || zb.z.Apex.NumLabels() > best.z.Apex.NumLabels() {
+			best = zb
+		}
+	}
+	return best
+}
+
+func (cs *caseB) zoneByApex(apex string) *zoneB {
+	a, err := parseName(apex)
+	if err != nil {
+		return nil
+	}
+	for _, zb := range cs.zones {
+		if zb.z.Apex.Equal(a) {
+			return zb
+		}
+	}
+	return nil
+}
+
+// ---------------------------------------------------------------- honest authoritative responses
+
+type ttlPlan struct {
+	soaTTL, minTTL, recTTL uint32
+	sigLife                time.Duration
+}
+
+func (cs *caseB) plan() ttlPlan {
+	pick := func() uint32 { return []uint32{40, 90, 300, 900}[cs.rng.IntN(4)] }
+	return ttlPlan{soaTTL: pick(), minTTL: pick(), recTTL: pick(),
+		sigLife: []time.Duration{50 * time.Second, 200 * time.Second, time.Hour}[cs.rng.IntN(3)]}
+}
+
+func fakeSig(owner string, covered uint16, ttl uint32, signer string, now time.Time, life time.Duration) *dns.RRSIG {
+	labels := dns.CountLabel(owner)
+	if len(owner) > 1 && owner[0] == '*' && owner[1] == '.' {
+		labels--
+	}
+	return &dns.RRSIG{
+		Hdr:         dns.RR_Header{Name: owner, Rrtype: dns.TypeRRSIG, Class: dns.ClassINET, Ttl: ttl},
+		TypeCovered: covered, Algorithm: dns.ECDSAP256SHA256, Labels: uint8(labels), OrigTtl: ttl,
+		Expiration: uint32(now.Add(life).Unix()), Inception: uint32(now.Add(-time.Hour).Unix()),
+		KeyTag: 4242, SignerName: signer, Signature: "AA==",
+	}
+}
+
+// denial builds the honest negative response of zone zb for (q, qtype), or nil
+// when the model's answer is not a denial this zone can prove.
+func (cs *caseB) denial(zb *zoneB, q Name, qtype uint16, p ttlPlan, now time.Time) (resp *dns.Msg, optout bool) {
+	z := zb.z
+	t := z.TruthOf(q, qtype)
+	rcode := -1
+	switch {
+	case t.Kind == KNX:
+		rcode = dns.RcodeNameError
+	case t.NoData():
+		rcode = dns.RcodeSuccess
+	default:
+		return nil, false
+	}
+	var proof []dns.RR
+	if zb.mode == "nsec" {
+		add := func(i int) {
+			if i < 0 {
+				return
+			}
+			for _, r := range proof {
+				if r == dns.RR(zb.nv.rrs[i]) {
+					return
+				}
+			}
+			proof = append(proof, zb.nv.rrs[i])
+		}
+		switch {
+		case t.Kind == KNX:
+			add(zb.nv.coverIdx(q))
+			add(zb.nv.coverIdx(t.CE.Child([]byte{'*'})))
+		case t.Kind == KExists:
+			add(zb.nv.ownerIdx(q))
+		case t.Kind == KENT:
+			add(zb.nv.coverIdx(q))
+		case t.Kind == KWild:
+			add(zb.nv.coverIdx(q))
+			w := t.CE.Child([]byte{'*'})
+			if i := zb.nv.ownerIdx(w); i >= 0 {
+				add(i)
+			} else {
+				add(zb.nv.coverIdx(w))
+			}
+		}
+	} else {
+		add := func(i int) bool {
+			if i < 0 {
+				return false
+			}
+			for _, r := range proof {
+				if r == dns.RR(zb.n3[i]) {
+					return true
+				}
+			}
+			proof = append(proof, zb.n3[i])
+			return true
+		}
+		ce, nc, exact := z.hashedCE(q)
+		_, ncOpt, wcOpt := z.optOutFacts(q)
+		w := ce.Child([]byte{'*'})
+		switch {
+		case exact:
+			if rcode != dns.RcodeSuccess || !add(z.n3Match(q)) {
+				return nil, false
+			}
+		case t.Kind == KNX:
+			if z.hashed[w.K] || !add(z.n3Match(ce)) || !add(z.n3Cover(nc)) || !add(z.n3Cover(w)) {
+				return nil, false
+			}
+			optout = ncOpt || wcOpt
+		case t.Kind == KWild && z.hashed[w.K]:
+			if !add(z.n3Match(ce)) || !add(z.n3Cover(nc)) || !add(z.n3Match(w)) {
+				return nil, false
+			}
+			optout = ncOpt
+		case qtype == dns.TypeDS && ncOpt:
+			// DS at an opted-out insecure delegation (RFC 5155 §7.2.4)
+			if !add(z.n3Match(ce)) || !add(z.n3Cover(nc)) {
+				return nil, false
+			}
+			optout = true
+		default:
+			return nil, false
+		}
+	}
+	if len(proof) == 0 {
+		return nil, false
+	}
+	resp = new(dns.Msg)
+	resp.SetQuestion(q.P, qtype)
+	resp.Response, resp.Rcode, resp.RecursionAvailable = true, rcode, true
+	apex := z.Apex.P
+	resp.Ns = append(resp.Ns, &dns.SOA{Hdr: dns.RR_Header{Name: apex, Rrtype: dns.TypeSOA, Class: dns.ClassINET, Ttl: p.soaTTL},
+		Ns: "ns." + apex, Mbox: "h." + apex, Serial: 1, Refresh: 3600, Retry: 600, Expire: 86400, Minttl: p.minTTL},
+		fakeSig(apex, dns.TypeSOA, p.soaTTL, apex, now, p.sigLife))
+	for _, rr := range proof {
+		c := dns.Copy(rr)
+		c.Header().Ttl = p.recTTL
+		resp.Ns = append(resp.Ns, c, fakeSig(c.Header().Name, c.Header().Rrtype, p.recTTL, apex, now, p.sigLife))
+	}
+	return resp, optout
+}
+
+func positive(q Name, qtype uint16) *dns.Msg {
+	m := new(dns.Msg)
+	m.SetQuestion(q.P, qtype)
+	m.Response, m.RecursionAvailable = true, true
+	m.Answer = []dns.RR{&dns.TXT{Hdr: dns.RR_Header{Name: q.P, Rrtype: dns.TypeTXT, Class: dns.ClassINET, Ttl: 60}, Txt: []string{"c02"}}}
+	if qtype != dns.TypeTXT {
+		m.Answer = []dns.RR{&dns.RFC3597{Hdr: dns.RR_Header{Name: q.P, Rrtype: qtype, Class: dns.ClassINET, Ttl: 60}, Rdata: "00"}}
+	}
+	return m
+}
+
+// emulateAuthority reproduces the semantic part of Resolver.authority
+// (middleware/resolver/resolver.go, "Require denial-of-existence proof…"):
+// the real evaluators decide acceptance, AD and aggressive eligibility; the
+// provenance mark is attached exactly under the resolver's conditions.
+// Returns false when the resolver would have failed the response (SERVFAIL).
+func emulateAuthority(ctx context.Context, req, resp *dns.Msg, signer string) (ok bool, marked, aggressive bool) {
+	q := req.Question[0]
+	nsec3Set := dnsutil.FilterRRsToZone(dnsutil.ExtractRRSet(resp.Ns, "", dns.TypeNSEC3), signer)
+	nsecSet := dnsutil.FilterRRsToZone(dnsutil.ExtractRRSet(resp.Ns, "", dns.TypeNSEC), signer)
+	isNegative := resp.Rcode == dns.RcodeNameError || (resp.Rcode == dns.RcodeSuccess && len(resp.Answer) == 0)
+	kind := middleware.ValidatedNegativeProofUnknown
+	denialSecure := true
+	proofQuestion := q
+	if !isNegative {
+		return true, false, false
+	}
+	switch {
+	case len(nsec3Set) > 0:
+		kind = middleware.ValidatedNegativeProofNSEC3
+		var err error
+		if resp.Rcode == dns.RcodeNameError {
+			denialSecure, err = dnssec.VerifyNameErrorForZoneWithWork(resp, nsec3Set, signer, nil)
+		} else {
+			denialSecure, err = dnssec.VerifyNODATAForZoneWithWork(resp, nsec3Set, signer, nil)
+		}
+		if err != nil {
+			return false, false, false
+		}
+		if denialSecure {
+			result, err := dnssec.EvaluateAggressiveNSEC3(proofQuestion, signer, nsec3Set, nil)
+			aggressive = err == nil && result.Rcode == resp.Rcode
+		}
+	case len(nsecSet) > 0:
+		kind = middleware.ValidatedNegativeProofNSEC
+		var err error
+		if resp.Rcode == dns.RcodeNameError {
+			err = dnssec.VerifyNameErrorNSEC(resp, nsecSet)
+		} else {
+			err = dnssec.VerifyNODATANSEC(resp, nsecSet)
+		}
+		if err != nil {
+			return false, false, false
+		}
+		result, err := dnssec.EvaluateAggressiveNSEC(proofQuestion, signer, nsecSet)
+		aggressive = err == nil && result.Rcode == resp.Rcode
+	default:
+		return false, false, false
+	}
+	if !req.CheckingDisabled {
+		resp.AuthenticatedData = denialSecure
+	}
+	if !req.CheckingDisabled && denialSecure {
+		middleware.MarkValidatedNegativeProofResponse(ctx, resp, middleware.ValidatedNegativeProof{
+			Subject: proofQuestion.Name, Zone: signer, Kind: kind, Aggressive: aggressive})
+		marked = true
+	}
+	return true, marked, aggressive
+}
+
+// ServeDNS / Name make caseB the terminal handler behind the cache.
+func (cs *caseB) Name() string { return "c02stub" }
+
+func (cs *caseB) ServeDNS(ctx context.Context, ch *middleware.Chain) {
+	cs.stubCalls++
+	req := ch.Request.Msg()
+	qn, err := parseName(req.Question[0].Name)
+	qtype := req.Question[0].Qtype
+	fail := func() {
+		m := new(dns.Msg)
+		m.SetRcode(req, dns.RcodeRefused)
+		_ = ch.Writer.WriteMsg(m)
+		ch.Cancel()
+	}
+	if err != nil {
+		fail()
+		return
+	}
+	zb := cs.zoneFor(qn, qtype)
+	if zb == nil {
+		fail()
+		return
+	}
+	now := time.Now()
+	resp, optout := cs.denial(zb, qn, qtype, cs.plan(), now)
+	if resp == nil {
+		resp = positive(qn, qtype)
+		resp.Id = req.Id
+		_ = ch.Writer.WriteMsg(resp)
+		ch.Cancel()
+		return
+	}
+	resp.Id = req.Id
+	resp.Question = req.Question
+	resp.CheckingDisabled = req.CheckingDisabled
+	info := &admitInfo{optout: optout, rcode: resp.Rcode, zone: zb, subject: qn, resp: resp}
+	if cs.cutIn > 0 {
+		info.cutUntil = now.Add(cs.cutIn)
+		middleware.ResponseMetaFrom(ctx).BoundCutFor(info.cutUntil, 1)
+	}
+	signer := zb.z.Apex.P
+	switch cs.stubMode {
+	case "validated":
+		ok, marked, agg := emulateAuthority(ctx, req, resp, signer)
+		if !ok {
+			cs.stubNote = "resolver-would-servfail"
+			fail()
+			return
+		}
+		info.marked, info.aggressive = marked, agg
+	case "unvalidated":
+		// a forwarder / plugin answer: AD on the wire, no local provenance
+		resp.AuthenticatedData = true
+	case "forcemark":
+		// a handler that marks provenance although the request tree is CD / ECS
+		kind := middleware.ValidatedNegativeProofNSEC
+		if zb.mode == "nsec3" {
+			kind = middleware.ValidatedNegativeProofNSEC3
+		}
+		resp.AuthenticatedData = true
+		middleware.MarkValidatedNegativeProofResponse(ctx, resp, middleware.ValidatedNegativeProof{
+			Subject: qn.P, Zone: signer, Kind: kind, Aggressive: true})
+		info.marked, info.aggressive = true, true
+	}
+	cs.lastAdmit = info
+	_ = ch.Writer.WriteMsg(resp)
+	ch.Cancel()
+}
+
+// ---------------------------------------------------------------- requests
+
+func mkReq(n Name, qtype uint16, flavor string) *dns.Msg {
+	req := new(dns.Msg)
+	req.SetQuestion(n.P, qtype)
+	req.RecursionDesired = true
+	req.SetEdns0(1232, true)
+	switch flavor {
+	case "cd":
+		req.CheckingDisabled = true
+	case "ecs":
+		req.IsEdns0().Option = append(req.IsEdns0().Option, &dns.EDNS0_SUBNET{Code: dns.EDNS0SUBNET, Family: 1,
+			SourceNetmask: 24, Address: net.IPv4(192, 0, 2, 0).To4()})
+	}
+	return req
+}
+
+func (cs *caseB) exchange(ctx context.Context, req *dns.Msg) *dns.Msg {
+	w := mock.NewWriter("udp", "127.0.0.1:4053")
+	ch := middleware.NewChain([]middleware.Handler{cs.c, cs})
+	ch.Reset(w, req)
+	ch.Next(ctx)
+	if !w.Written() {
+		return nil
+	}
+	return w.Msg()
+}
+
+// ---------------------------------------------------------------- model of admissions
+
+func minDur(a time.Duration, bs ...time.Duration) time.Duration {
+	for _, b := range bs {
+		if b < a {
+			a = b
+		}
+	}
+	return a
+}
+
+func rrLife(rr dns.RR, now time.Time) time.Duration {
+	l := time.Duration(rr.Header().Ttl) * time.Second
+	switch x := rr.(type) {
+	case *dns.SOA:
+		l = minDur(l, time.Duration(x.Minttl)*time.Second)
+	case *dns.RRSIG:
+		l = minDur(l, time.Duration(x.OrigTtl)*time.Second, time.Unix(int64(x.Expiration), 0).Sub(now))
+	}
+	return l
+}
+
+func sigCovers(sig *dns.RRSIG, rr dns.RR) bool {
+	a, e1 := parseName(sig.Hdr.Name)
+	b, e2 := parseName(rr.Header().Name)
+	return e1 == nil && e2 == nil && a.Equal(b) && sig.TypeCovered == rr.Header().Rrtype
+}
+
+func proofKey(zone Name, rr dns.RR) string {
+	o, _ := parseName(rr.Header().Name)
+	return zone.K + "|" + dns.TypeToString[rr.Header().Rrtype] + "|" + o.K
+}
+
+// modelAdmit records the virtual expiry the caches may at most give each
+// record of an admitted response (upper bounds: a later re-admission only
+// raises them, so the model never expires something the cache may still hold).
+func (cs *caseB) modelAdmit(zb *zoneB, subject Name, resp *dns.Msg, cutUntil time.Time, now time.Time, proof, cut bool) {
+	common := expireCfg * time.Second
+	if !cutUntil.IsZero() {
+		common = minDur(common, cutUntil.Sub(now))
+	}
+	var soa dns.RR
+	for _, rr := range resp.Ns {
+		if rr.Header().Rrtype == dns.TypeSOA {
+			soa = rr
+			common = minDur(common, rrLife(rr, now))
+		}
+	}
+	for _, rr := range resp.Ns {
+		if s, ok := rr.(*dns.RRSIG); ok && soa != nil && sigCovers(s, soa) {
+			common = minDur(common, rrLife(rr, now))
+		}
+	}
+	all := common
+	set := func(m map[string]time.Duration, k string, life time.Duration) {
+		if e := cs.vnow + life; e > m[k] {
+			m[k] = e
+		}
+	}
+	for _, rr := range resp.Ns {
+		t := rr.Header().Rrtype
+		if t != dns.TypeNSEC && t != dns.TypeNSEC3 {
+			continue
+		}
+		life := minDur(common, rrLife(rr, now))
+		for _, s := range resp.Ns {
+			if sg, ok := s.(*dns.RRSIG); ok && sigCovers(sg, rr) {
+				life = minDur(life, rrLife(s, now))
+			}
+		}
+		all = minDur(all, life)
+		if proof {
+			set(cs.expProof, proofKey(zb.z.Apex, rr), life)
+		}
+	}
+	if proof && soa != nil {
+		set(cs.expProof, proofKey(zb.z.Apex, soa), common)
+	}
+	if cut {
+		set(cs.expCut, subject.K, all)
+	}
+}
+
+type storeState struct {
+	proofLen, cutLen int
+	seq              uint64
+	cutStamp         int64
+}
+
+func (cs *caseB) state() storeState {
+	_, stamp := cache.VerifC02Cuts(cs.store)
+	return storeState{cs.store.DenialProofLen(), cs.store.NXDomainCutLen(), cache.VerifC02ProofSeq(cs.store), stamp}
+}
+
+func (a storeState) admitted(b storeState) bool { return b.seq != a.seq || b.cutStamp != a.cutStamp }
+
+// ---------------------------------------------------------------- judging a synthesised answer
+
+func (cs *caseB) work() dnssec.NSEC3Work { return nullWork{} }
+
+// judgeSynth checks one answer that did not come from an exact cache entry or
+// from the stub. path is "cut", "proof", "get", "pipeline".
+func (cs *caseB) judgeSynth(path string, n Name, qtype uint16, flavor string, m *dns.Msg, cutHit bool) {
+	if !isNegativeMsg(m) {
+		cs.t.add("non_denial_cache_answers/"+dns.RcodeToString[m.Rcode], 1) // RFC 9520 failure cache etc.
+		return
+	}
+	cs.t.add("evals", 1)
+	cs.t.add("synth/"+path+"/"+flavor, 1)
+	if flavor != "plain" {
+		cs.violation(vlib.Sig("cache", "synthesis-for-"+flavor, path),
+			fmt.Sprintf("%s request for %s/%s was answered from shared denial state (%s): rcode %s", flavor, n.P, dns.TypeToString[qtype], path, dns.RcodeToString[m.Rcode]))
+		return
+	}
+	var zb *zoneB
+	for _, rr := range m.Ns {
+		if rr.Header().Rrtype == dns.TypeSOA {
+			zb = cs.zoneByApex(rr.Header().Name)
+		}
+	}
+	if zb == nil {
+		cs.violation(vlib.Sig("cache", "synthesis-without-known-soa", path), fmt.Sprintf("synthesised answer for %s carries no SOA of a modelled zone", n.P))
+		return
+	}
+	z := zb.z
+	t := z.TruthOf(n, qtype)
+	cs.t.distinct("B|" + path + "|" + t.Kind.String() + "|" + t.Data.String() + "|" + dns.RcodeToString[m.Rcode] + "|" + zb.mode + "|" + shapeOf(n, z.Apex))
+	cs.t.in("name_shapes", shapeOf(n, z.Apex)+"|"+t.Kind.String())
+	switch {
+	case m.Rcode == dns.RcodeNameError:
+		cs.t.add("synth_nxdomain", 1)
+		if t.Kind != KNX {
+			cs.violation(vlib.Sig("cache", "synthesised-nxdomain", t.Kind.String()),
+				fmt.Sprintf("cache synthesised NXDOMAIN (%s, zone %s) for %s but the model says %s", path, z.Apex.P, n.P, t.Kind))
+			return
+		}
+	case m.Rcode == dns.RcodeSuccess && len(m.Answer) == 0:
+		cs.t.add("synth_nodata", 1)
+		if !t.NoData() {
+			cs.violation(vlib.Sig("cache", "synthesised-nodata", t.Kind.String()+"-"+t.Data.String()),
+				fmt.Sprintf("cache synthesised NODATA (%s, zone %s) for %s/%s but the model says %s/%s", path, z.Apex.P, n.P, dns.TypeToString[qtype], t.Kind, t.Data))
+			return
+		}
+	default:
+		cs.violation(vlib.Sig("cache", "synthesised-other"), fmt.Sprintf("unexpected synthesised answer for %s: rcode %s, %d answers", n.P, dns.RcodeToString[m.Rcode], len(m.Answer)))
+		return
+	}
+	if zb.mode == "nsec3" {
+		_, ncOpt, wcOpt := z.optOutFacts(n)
+		if (m.Rcode == dns.RcodeNameError && (ncOpt || wcOpt)) || (m.Rcode == dns.RcodeSuccess && t.Kind == KWild && ncOpt) {
+			cs.violation(vlib.Sig("cache", "synthesis-rests-on-optout"), fmt.Sprintf("cache synthesised %s for %s from an Opt-Out span", dns.RcodeToString[m.Rcode], n.P))
+			return
+		}
+	}
+	// expiry / provenance of the material
+	const slack = 3 * time.Second
+	if cutHit {
+		live := false
+		known := false
+		for a := n; a.IsSubOf(z.Apex); a = a.Parent() {
+			if e, ok := cs.expCut[a.K]; ok {
+				known = true
+				if cs.vnow <= e+slack {
+					live = true
+				}
+			}
+			if a.IsRoot() {
+				break
+			}
+		}
+		if !known {
+			cs.violation(vlib.Sig("cache", "cut-without-admission"), fmt.Sprintf("a cut covers %s although the model admitted none", n.P))
+		} else if !live {
+			cs.violation(vlib.Sig("cache", "synthesis-after-expiry", "cut"), fmt.Sprintf("cut-based NXDOMAIN for %s at virtual +%s after every covering cut expired", n.P, cs.vnow))
+		}
+		return
+	}
+	for _, rr := range m.Ns {
+		ty := rr.Header().Rrtype
+		if ty != dns.TypeNSEC && ty != dns.TypeNSEC3 && ty != dns.TypeSOA {
+			continue
+		}
+		e, ok := cs.expProof[proofKey(z.Apex, rr)]
+		if !ok {
+			cs.violation(vlib.Sig("cache", "synthesis-from-unadmitted-record"), fmt.Sprintf("answer for %s uses %s %s which the model never admitted", n.P, dns.TypeToString[ty], rr.Header().Name))
+			return
+		}
+		if cs.vnow > e+slack {
+			cs.violation(vlib.Sig("cache", "synthesis-after-expiry", "proof"), fmt.Sprintf("answer for %s at virtual +%s uses %s %s expired at +%s", n.P, cs.vnow, dns.TypeToString[ty], rr.Header().Name, e))
+			return
+		}
+	}
+}
+
+func isNegativeMsg(m *dns.Msg) bool {
+	return m != nil && (m.Rcode == dns.RcodeNameError || (m.Rcode == dns.RcodeSuccess && len(m.Answer) == 0))
+}
+
+// sweepOne looks (n, qtype) up through the store API in every flavour.
+func (cs *caseB) sweepOne(n Name, qtype uint16, pipeline bool) {
+	for _, flavor := range []string{"plain", "cd", "ecs"} {
+		req := mkReq(n, qtype, flavor)
+		_, hasExact := cs.store.Lookup(req)
+		cs.t.add("lookups/"+flavor, 1)
+		if flavor != "ecs" {
+			_, cutHit := cs.store.LookupNXDomainCut(req)
+			pm, _, _, pok := cs.store.LookupDenialProof(req, cs.work())
+			if cutHit {
+				// the cut entry itself is opaque here; its answer is observed via GetWithContext below
+				cs.t.add("cut_hits/"+flavor, 1)
+				if flavor != "plain" {
+					cs.violation(vlib.Sig("cache", "synthesis-for-"+flavor, "cut-lookup"), fmt.Sprintf("LookupNXDomainCut hit for a %s request (%s)", flavor, n.P))
+				}
+			}
+			if pok {
+				cs.judgeSynth("proof", n, qtype, flavor, pm, false)
+			}
+			ctx := dnssec.EnsureNSEC3HashMemo(context.Background())
+			if gm, gok := cs.store.GetWithContext(ctx, req); gok && !hasExact {
+				cs.judgeSynth("get", n, qtype, flavor, gm, cutHit)
+			}
+		} else {
+			ctx := dnssec.EnsureNSEC3HashMemo(context.Background())
+			if gm, gok := cs.store.GetWithContext(ctx, req); gok && !hasExact {
+				cs.judgeSynth("get", n, qtype, "ecs", gm, false)
+			}
+			// plain message, ECS / bypass carried by the request tree only
+			plain := mkReq(n, qtype, "plain")
+			if _, ex := cs.store.Lookup(plain); !ex {
+				if gm, gok := cs.store.GetWithContext(middleware.MarkClientECS(dnssec.EnsureNSEC3HashMemo(context.Background())), plain); gok {
+					cs.judgeSynth("get-ctx-ecs", n, qtype, "ecs", gm, false)
+				}
+				if gm, gok := cs.store.GetWithContext(cache.VerifC02BypassContext(dnssec.EnsureNSEC3HashMemo(context.Background())), plain); gok {
+					cs.judgeSynth("get-ctx-bypass", n, qtype, "cd", gm, false)
+				}
+			}
+		}
+		if pipeline {
+			cs.pipelineQuery(n, qtype, flavor, "validated", 0)
+		}
+	}
+	if pipeline {
+		cs.pipelineQuery(n, qtype, "ecsctx", "validated", 0)
+	}
+}
+
+// pipelineQuery sends one request through Cache.ServeDNS with the stub behind it.
+func (cs *caseB) pipelineQuery(n Name, qtype uint16, flavor, mode string, cutIn time.Duration) {
+	req := mkReq(n, qtype, flavor)
+	_, hasExact := cs.store.Lookup(req)
+	_, cutHit := cs.store.LookupNXDomainCut(mkReq(n, qtype, "plain"))
+	cs.stubMode, cs.stubCalls, cs.lastAdmit, cs.cutIn, cs.stubNote = mode, 0, nil, cutIn, ""
+	before := cs.state()
+	now := time.Now()
+	ctx := context.Background()
+	if flavor == "ecsctx" {
+		// what middleware/edns leaves behind after stripping a client's ECS option:
+		// a plain message in a request tree marked as ECS
+		ctx = middleware.MarkClientECS(ctx)
+	}
+	resp := cs.exchange(ctx, req)
+	after := cs.state()
+	cs.t.add("pipeline_queries/"+flavor+"/"+mode, 1)
+	cs.tracef("query %s/%s %s stub=%s calls=%d exact=%v → %s admitted=%v", n.P, dns.TypeToString[qtype], flavor, mode, cs.stubCalls, hasExact, rcodeOf(resp), before.admitted(after))
+	if resp == nil {
+		cs.r.Inconclusive("layer B: pipeline wrote no response")
+		return
+	}
+	if cs.stubCalls == 0 {
+		if !hasExact && isNegativeMsg(resp) {
+			fl := flavor
+			if fl == "ecsctx" {
+				fl = "ecs"
+			}
+			cs.judgeSynth("pipeline", n, qtype, fl, resp, cutHit && flavor == "plain")
+		}
+		if before.admitted(after) {
+			cs.violation(vlib.Sig("cache", "admission-without-resolution"), fmt.Sprintf("cache state changed on a query (%s) that never reached the resolver", n.P))
+		}
+		return
+	}
+	cs.t.add("handed_to_resolution/"+flavor, 1)
+	info := cs.lastAdmit
+	admitted := before.admitted(after)
+	cs.t.add("evals", 1)
+	legit := info != nil && info.marked && info.aggressive && mode == "validated" && flavor == "plain"
+	switch {
+	case admitted && !legit:
+		reason := "no-provenance"
+		switch {
+		case flavor != "plain":
+			reason = flavor + "-request"
+		case info != nil && info.marked && !info.aggressive:
+			reason = "not-aggressive-eligible"
+		}
+		cs.violation(vlib.Sig("cache", "admission", reason), fmt.Sprintf("shared denial state was admitted from a %s response to a %s request for %s/%s (%s)", mode, flavor, n.P, dns.TypeToString[qtype], reason))
+	case admitted && info.optout:
+		cs.violation(vlib.Sig("cache", "admission", "optout-proof"), fmt.Sprintf("shared denial state was admitted from a proof resting on an Opt-Out span (%s/%s)", n.P, dns.TypeToString[qtype]))
+	case admitted:
+		cs.t.add("admissions/pipeline", 1)
+		if after.cutLen > before.cutLen || after.cutStamp != before.cutStamp {
+			cs.t.add("admissions/cut", 1)
+		}
+	}
+	if legit {
+		// upper bound on lifetimes, whether or not the cache took it (limits may refuse)
+		cs.modelAdmit(info.zone, info.subject, info.resp, info.cutUntil, now, true, info.rcode == dns.RcodeNameError && !info.optout)
+		if !admitted {
+			cs.t.add("legit_not_admitted", 1)
+		}
+	}
+	if mode != "validated" || flavor != "plain" {
+		cs.t.add("refused_admissions/"+flavor+"/"+mode, 1)
+	}
+}
+
+func rcodeOf(m *dns.Msg) string {
+	if m == nil {
+		return "none"
+	}
+	return dns.RcodeToString[m.Rcode]
+}
+
+// directOp exercises Store.RecordDenialProof / RecordNXDomainCut.
+func (cs *caseB) directOp() {
+	rng := cs.rng
+	// find a name with an NXDOMAIN truth
+	var zb *zoneB
+	var n Name
+	for tries := 0; tries < 40; tries++ {
+		u := cs.uni[rng.IntN(len(cs.uni))]
+		z := cs.zoneFor(u.n, dns.TypeA)
+		if z != nil && z.z.TruthOf(u.n, dns.TypeA).Kind == KNX {
+			zb, n = z, u.n
+			break
+		}
+	}
+	if zb == nil {
+		return
+	}
+	now := time.Now()
+	resp, optout := cs.denial(zb, n, dns.TypeA, cs.plan(), now)
+	if resp == nil {
+		return
+	}
+	kind := middleware.ValidatedNegativeProofNSEC
+	if zb.mode == "nsec3" {
+		kind = middleware.ValidatedNegativeProofNSEC3
+	}
+	apex := zb.z.Apex.P
+	var cutUntil time.Time
+	if rng.IntN(3) == 0 {
+		cutUntil = now.Add([]time.Duration{25 * time.Second, 70 * time.Second, 10 * time.Minute}[rng.IntN(3)])
+	}
+	variant := []string{"valid", "valid", "valid", "apex-denied", "cd-proof", "outside-zone", "kind-mismatch", "root-denied"}[rng.IntN(8)]
+	if optout {
+		variant = "optout-proof"
+	}
+	before := cs.state()
+	var okP, okC bool
+	switch variant {
+	case "valid":
+		// what the resolver would have required before marking: the strict evaluator agrees
+		q := dns.Question{Name: n.P, Qtype: dns.TypeA, Qclass: dns.ClassINET}
+		var err error
+		if zb.mode == "nsec3" {
+			_, err = dnssec.EvaluateAggressiveNSEC3(q, apex, dnsutil.ExtractRRSet(resp.Ns, "", dns.TypeNSEC3), nil)
+		} else {
+			_, err = dnssec.EvaluateAggressiveNSEC(q, apex, dnsutil.ExtractRRSet(resp.Ns, "", dns.TypeNSEC))
+		}
+		if err != nil {
+			cs.t.add("direct/skipped-not-aggressive", 1)
+			return
+		}
+		okP = cs.store.RecordDenialProof(resp, apex, kind, cutUntil)
+		okC = cs.store.RecordNXDomainCut(resp, n.P, apex, cutUntil)
+		if okP {
+			cs.modelAdmit(zb, n, resp, cutUntil, now, true, false)
+		}
+		if okC {
+			cs.modelAdmit(zb, n, resp, cutUntil, now, false, true)
+		}
+		cs.t.add("admissions/direct", 1)
+	case "apex-denied":
+		okC = cs.store.RecordNXDomainCut(resp, apex, apex, cutUntil)
+	case "root-denied":
+		okC = cs.store.RecordNXDomainCut(resp, ".", apex, cutUntil)
+	case "cd-proof":
+		resp.CheckingDisabled = true
+		okP = cs.store.RecordDenialProof(resp, apex, kind, cutUntil)
+		okC = cs.store.RecordNXDomainCut(resp, n.P, apex, cutUntil)
+	case "outside-zone":
+		other := "outside.invalid."
+		okC = cs.store.RecordNXDomainCut(resp, other, apex, cutUntil)
+		m := resp.Copy()
+		m.Question[0].Name = other
+		okP = cs.store.RecordDenialProof(m, apex, kind, cutUntil)
+	case "kind-mismatch":
+		wrong := middleware.ValidatedNegativeProofNSEC3
+		if zb.mode == "nsec3" {
+			wrong = middleware.ValidatedNegativeProofNSEC
+		}
+		okP = cs.store.RecordDenialProof(resp, apex, wrong, cutUntil)
+	case "optout-proof":
+		// RFC 8020 cut from an Opt-Out proof must be refused by the cut index itself
+		okC = cs.store.RecordNXDomainCut(resp, n.P, apex, cutUntil)
+	}
+	after := cs.state()
+	cs.t.add("direct/"+variant, 1)
+	cs.t.add("evals", 1)
+	cs.tracef("direct %s %s zone %s → proof=%v cut=%v", variant, n.P, apex, okP, okC)
+	if variant != "valid" && (okP || okC || before.admitted(after)) {
+		cs.violation(vlib.Sig("cache", "admission", variant), fmt.Sprintf("Store admitted shared denial state for the %s variant (%s, zone %s): proof=%v cut=%v", variant, n.P, apex, okP, okC))
+	}
+}
+
+// ---------------------------------------------------------------- one case
+
+func runCaseB(r *vlib.Run, seed uint64, idx int, quick bool) *tally {
+	rng := caseRng(seed, idx)
+	cs := &caseB{r: r, rng: rng, t: newTally(), expProof: map[string]time.Duration{}, expCut: map[string]time.Duration{},
+		cb: CaseB{Layer: "B", Seed: seed, Index: idx, Tier: map[bool]string{true: "quick", false: "thorough"}[quick]}}
+	ws := genWorld(rng, idx%3 != 2)
+	w := buildWorld(ws)
+	for _, z := range []*Zone{w.P, w.C, w.S} {
+		zb := &zoneB{z: z, mode: "nsec"}
+		if rng.IntN(2) == 0 {
+			zb.mode = "nsec3"
+			zb.n3 = z.NSEC3Chain()
+		} else {
+			zb.nv = z.nsecView()
+		}
+		cs.zones = append(cs.zones, zb)
+		for _, q := range universe(z, rng, 36) {
+			if q.Dname == nil {
+				cs.uni = append(cs.uni, uniB{n: q.N, types: qtypesFor(z, q.N)})
+			}
+		}
+		cs.t.add("zonesB/"+zb.mode, 1)
+	}
+	cs.c = cache.New(&config.Config{CacheSize: 16384, Expire: expireCfg})
+	defer cs.c.Stop()
+	cs.c.SetDNSSECCryptoLimiter(dnssec.NewCryptoLimiter(4))
+	st, ok := cs.c.Store().(*cache.Store)
+	if !ok {
+		r.Fatalf("layer B: Cache.Store() is not *cache.Store")
+	}
+	cs.store = st
+
+	// names whose honest answer is a denial, to bias the query ops
+	var denials []uniB
+	for _, u := range cs.uni {
+		zb := cs.zoneFor(u.n, dns.TypeA)
+		if zb != nil {
+			if t := zb.z.TruthOf(u.n, dns.TypeA); t.Kind == KNX || t.NoData() {
+				denials = append(denials, u)
+			}
+		}
+	}
+	nOps := 70
+	for cs.opNo = 1; cs.opNo <= nOps; cs.opNo++ {
+		d := rng.IntN(100)
+		switch {
+		case d < 56:
+			cs.op = "query"
+			u := cs.uni[rng.IntN(len(cs.uni))]
+			if len(denials) > 0 && rng.IntN(4) != 0 {
+				u = denials[rng.IntN(len(denials))]
+			}
+			qt := u.types[rng.IntN(len(u.types))]
+			flavor, mode := "plain", "validated"
+			switch f := rng.IntN(20); {
+			case f < 3:
+				flavor, mode = "cd", "forcemark"
+			case f < 5:
+				flavor, mode = "ecs", "forcemark"
+			case f < 7:
+				flavor, mode = "ecsctx", "forcemark"
+			case f < 9:
+				mode = "unvalidated"
+			}
+			var cutIn time.Duration
+			if rng.IntN(4) == 0 {
+				cutIn = []time.Duration{25 * time.Second, 70 * time.Second, 20 * time.Minute}[rng.IntN(3)]
+			}
+			cs.pipelineQuery(u.n, qt, flavor, mode, cutIn)
+		case d < 66:
+			cs.op = "direct"
+			cs.directOp()
+		case d < 76:
+			cs.op = "advance"
+			dd := []time.Duration{20 * time.Second, 45 * time.Second, 100 * time.Second, 400 * time.Second}[rng.IntN(4)]
+			cache.VerifC02Advance(cs.store, dd)
+			cs.vnow += dd
+			cs.tracef("advance %s → +%s", dd, cs.vnow)
+			cs.t.add("advances", 1)
+		case d < 80:
+			cs.op = "purge"
+			u := cs.uni[rng.IntN(len(cs.uni))]
+			cs.store.Purge(dns.Question{Name: u.n.P, Qtype: dns.TypeA, Qclass: dns.ClassINET})
+			cs.tracef("purge %s", u.n.P)
+			cs.t.add("purges", 1)
+		default:
+			cs.op = "sweep-some"
+			for k := 0; k < 6; k++ {
+				u := cs.uni[rng.IntN(len(cs.uni))]
+				cs.sweepOne(u.n, u.types[rng.IntN(len(u.types))], k == 0)
+			}
+		}
+	}
+	cs.op = "sweep-all"
+	cs.opNo = nOps + 1
+	for _, u := range cs.uni {
+		for _, qt := range u.types {
+			cs.sweepOne(u.n, qt, false)
+		}
+	}
+	// everything expires within the configured negative TTL (and 3 h at most)
+	cs.op = "sweep-after-expiry"
+	cs.opNo = nOps + 2
+	cache.VerifC02Advance(cs.store, 4*time.Hour)
+	cs.vnow += 4 * time.Hour
+	for _, u := range cs.uni {
+		cs.sweepOne(u.n, u.types[0], false)
+	}
+	cs.t.add("casesB", 1)
+	return cs.t
+}
+
+func layerB(r *vlib.Run, nCases int) {
+	col := &collector{viol: map[string]*found{}}
+	// cases share process-global cache metrics only; run them on a few workers
+	jobs := make(chan int, nCases)
+	out := make(chan *tally, 8)
+	workers := 6
+	for w := 0; w < workers; w++ {
+		go func() {
+			for i := range jobs {
+				out <- runCaseB(r, r.Seed, i, r.Quick())
+			}
+		}()
+	}
+	for i := 0; i < nCases; i++ {
+		jobs <- i
+	}
+	close(jobs)
+	var vb []violB
+	for i := 0; i < nCases; i++ {
+		t := <-out
+		vb = append(vb, t.violB...)
+		for k, v := range t.c {
+			if k == "evals" {
+				r.Eval(int(v))
+				delete(t.c, k)
+			}
+		}
+		t.viol = map[string]*found{}
+		col.merge(r, t)
+		r.Progress("layer B: %d/%d cases", i+1, nCases)
+	}
+	sort.Slice(vb, func(i, j int) bool {
+		if vb[i].sig != vb[j].sig {
+			return vb[i].sig < vb[j].sig
+		}
+		if vb[i].c.Index != vb[j].c.Index {
+			return vb[i].c.Index < vb[j].c.Index
+		}
+		return vb[i].c.OpNo < vb[j].c.OpNo
+	})
+	for _, v := range vb {
+		r.Violation(v.sig, v.what, v.c)
+	}
+}
+
+func replayB(r *vlib.Run, c CaseB) {
+	t := runCaseB(r, c.Seed, c.Index, c.Tier != "thorough")
+	for k, v := range t.c {
+		if k == "evals" {
+			r.Eval(int(v))
+		} else {
+			r.Count(k, int(v))
+		}
+	}
+	for _, v := range t.violB {
+		r.Violation(v.sig, v.what, v.c)
+	}
+}
+
+func requireB(r *vlib.Run) {
+	r.Require("casesB", 10)
+	r.Require("admissions/pipeline", 100)
+	r.Require("admissions/cut", 20)
+	r.Require("admissions/direct", 20)
+	r.Require("synth_nxdomain", 200)
+	r.Require("synth_nodata", 100)
+	r.Require("synth/proof/plain", 100)
+	r.Require("cut_hits/plain", 50)
+	r.Require("refused_admissions/cd/forcemark", 10)
+	r.Require("refused_admissions/ecs/forcemark", 10)
+	r.Require("refused_admissions/ecsctx/forcemark", 10)
+	r.Require("pipeline_queries/ecsctx/validated", 50)
+	r.Require("refused_admissions/plain/unvalidated", 10)
+	r.Require("lookups/cd", 1000)
+	r.Require("lookups/ecs", 1000)
+	r.Require("advances", 20)
+	r.Require("zonesB/nsec", 5)
+	r.Require("zonesB/nsec3", 5)
+}
